@@ -17,9 +17,10 @@ T=$(PYTHONPATH="$W" /venv/bin/python -m pytest -q -p no:cacheprovider --timeout=
 echo "test suite with change: $T"
 F=$(PYTHONPATH="$W" /venv/bin/python -m pytest -q -p no:cacheprovider --timeout=900 -q tests 2>&1 | grep ^FAILED | grep -v test_vcf_with_missing_headers | head -5)
 [ -z "$F" ] && echo "unexpected test failures: none" || echo "unexpected test failures: $F"
-DEMO=$(ls "$D"/demo*.py | head -1)
+mkdir -p "$W/seed_out" && cp "$D"/demo*.py "$W/seed_out/"
+DEMO=$(ls "$W"/seed_out/demo*.py | head -1)   # demos locate test data relative to their own path in the worktree
 ( cd "$W" && PYTHONPATH="$W" timeout 900 /venv/bin/python "$DEMO" > /dev/null 2>&1 ); echo "demo with change: exit $?"
-( cd /repo && PYTHONPATH=/repo timeout 900 /venv/bin/python "$DEMO" > /dev/null 2>&1 ); echo "demo without change: exit $?"
+( cd /tmp && PYTHONPATH=/repo timeout 900 /venv/bin/python "$DEMO" > /dev/null 2>&1 ); echo "demo without change: exit $?"
 cd /verif
 git -C /repo worktree remove --force "$W"
 for P in "$@"; do
